@@ -48,6 +48,7 @@ type Prop struct {
 	Impl     func(in []int64) []int64
 	ImplM    func(in, model []int64) []int64    // optional: implementation driven by the model's answer (schedules)
 	Shrink   func(in []int64) [][]int64         // optional: smaller candidate inputs
+	Pure     bool                               // the implementation run of a case touches only objects of its own: the same case must give the same result while other calls run at the same time (concurrent phase)
 	Isolate  func(in []int64) bool              // optional: cases whose implementation run may kill the process (an allocation of 2^40 bytes is a fatal error, not a panic) run in a child process with an address-space limit
 	Known    func(in, out []int64) string       // optional: id of the known finding this failing case belongs to
 	Oracle   func(q []int64) []int64            // optional: answers ASK queries of the model
@@ -293,6 +294,8 @@ type Ctx struct {
 	Workers int
 
 	mu         sync.Mutex
+	conc       [][2][]int64 // concurrent phase: a sample of (case, implementation output)
+	concSeen   int
 	evals      int
 	distinct   map[[20]byte]bool
 	nontrivial int
@@ -315,6 +318,8 @@ type T struct {
 	R *rand.Rand
 	// oracle properties: the sub-0 arguments including the completed oracle table of the last evaluation
 	last0 []int64
+	// concurrent phase: judge this output (obtained while other calls were running) instead of running the case again
+	force []int64
 }
 
 func (c *Ctx) Quick() bool { return c.Tier != "thorough" }
@@ -386,7 +391,9 @@ func (t *T) eval(in []int64) *Failure {
 func (t *T) eval2(in []int64) (*Failure, []int64) {
 	p := t.C.P
 	var impl, model, spec []int64
-	if p.ImplM == nil {
+	if t.force != nil {
+		impl = t.force
+	} else if p.ImplM == nil {
 		impl = SafeImpl(p, in)
 	}
 	if p.Oracle != nil {
@@ -395,7 +402,7 @@ func (t *T) eval2(in []int64) (*Failure, []int64) {
 	} else {
 		model = t.M.Call(p.numOf(in), 0, in)
 	}
-	if p.ImplM != nil {
+	if p.ImplM != nil && t.force == nil {
 		q := *p
 		q.Impl = func(x []int64) []int64 { return p.ImplM(x, model) }
 		impl = SafeImpl(&q, in)
@@ -463,6 +470,14 @@ func (t *T) Try(family string, in []int64, nontrivial bool) bool {
 	if len(c.kernel) < 150 && f == nil && c.P.Oracle != nil && t.last0 != nil && len(t.last0) < 2500 && c.evals%97 == 0 {
 		// oracle property: the case together with its completed table is a closed term the kernel can evaluate
 		c.kernel = append(c.kernel, [2][]int64{append([]int64{}, t.last0...), nil})
+	}
+	if f == nil && c.P.Pure && t.force == nil && len(in) < 3000 && len(implOut) < 20000 && (c.P.Isolate == nil || !c.P.Isolate(in)) {
+		c.concSeen++
+		if len(c.conc) < 600 {
+			c.conc = append(c.conc, [2][]int64{in, implOut})
+		} else if k := int(sha1.Sum([]byte(fmt.Sprint(c.concSeen)))[0])<<8 | int(h[0]); c.concSeen%7 == 0 {
+			c.conc[k%600] = [2][]int64{in, implOut}
+		}
 	}
 	if f != nil {
 		c.nfail++
@@ -549,6 +564,69 @@ func ShrinkOps(header, width int) func(in []int64) [][]int64 {
 	}
 }
 
+// ---------------------------------------------------------------- concurrent phase (Prop.Pure)
+// A sample of the cases of this run (with the outputs the implementation gave) is run again from many goroutines at the
+// same time.  Every case builds its own objects, so the result must be the one recorded; a different result means state
+// shared between calls (a package-level scratch buffer, a sync.Pool entry handed back too early, a cached header).
+// A differing output is judged like any other output: model, specification, VIOLATION line with the case.  The replay of
+// such a case runs it alone and passes; the family name says so.
+func (c *Ctx) concurrentPhase() {
+	p := c.P
+	sample := c.conc
+	if len(sample) < 2 {
+		return
+	}
+	G := 16
+	dur := time.Duration(c.N(4, 40)) * time.Second
+	deadline := time.Now().Add(dur)
+	var mu sync.Mutex
+	var bad [][2][]int64
+	calls := 0
+	var wg sync.WaitGroup
+	for g := 0; g < G; g++ {
+		wg.Add(1)
+		go func(g int) {
+			defer wg.Done()
+			r := rand.New(rand.NewSource(c.Seed*31 + int64(g)))
+			n := 0
+			for time.Now().Before(deadline) {
+				k := sample[r.Intn(len(sample))]
+				out := func() (o []int64) {
+					defer func() {
+						if recover() != nil {
+							o = []int64{PANIC}
+						}
+					}()
+					return p.Impl(k[0])
+				}()
+				n++
+				if !eqTok(out, k[1]) {
+					mu.Lock()
+					if len(bad) < 6 {
+						bad = append(bad, [2][]int64{k[0], out})
+					}
+					nb := len(bad)
+					mu.Unlock()
+					if nb >= 6 {
+						break
+					}
+				}
+			}
+			mu.Lock()
+			calls += n
+			mu.Unlock()
+		}(g)
+	}
+	wg.Wait()
+	m := <-c.models
+	for _, b := range bad {
+		t := &T{C: c, M: m, R: rand.New(rand.NewSource(c.Seed)), force: b[1]}
+		t.Try("concurrent-calls (another result than when the case runs alone; a replay runs it alone)", b[0], true)
+	}
+	c.models <- m
+	c.Note(fmt.Sprintf("concurrent phase: %d calls from %d goroutines over a sample of %d cases of this run, %d gave another result than alone", calls, G, len(sample), len(bad)))
+}
+
 // ---------------------------------------------------------------- main
 func main() {
 	var tier, out, driver, replay, kernelOut string
@@ -599,6 +677,9 @@ func main() {
 		c.Each(1, func(i int, t *T) { t.Try("replay", r.In, true) })
 	} else {
 		p.Gen(c)
+		if p.Pure {
+			c.concurrentPhase()
+		}
 	}
 	// classify, shrink
 	m := <-c.models
